@@ -416,11 +416,16 @@ impl TryFrom<Option<&SubtypeElements>> for PerVisibleRangeConstraints {
             },
             Some(SubtypeElements::ContainedSubtype {
                 subtype,
-                extensible: _,
+                extensible,
             }) => per_visible_range_constraints(
                 matches!(subtype, ASN1Type::Integer(_)),
                 subtype.constraints(),
-            ),
+            )
+            .map(|mut range| {
+                // `(Type, ...)`: the extension marker written after the included type
+                range.extensible = range.extensible || *extensible;
+                range
+            }),
             x => {
                 eprintln!("{x:?}");
                 unreachable!()
